@@ -494,7 +494,7 @@ func init() {
 		rule:   "soundness: compiler-accepted pgen programs over the full type language (builtins, user file types, structs, multi-dimensional arrays, typed maps of arrays, untyped maps) with implicit conversions (int->float, struct->narrower struct, struct->map) composed through projection and map-call dimension changes, run by the real mrp with --strict=error and probes whose outputs conform to their declared types: any run-time binding-resolution / validation error or crash is a violation, and every argument each stage received is checked against the declared parameter type by the harness's own validator. completeness: single-point ill-typed mutations (wrong base type, array depth +-1, array vs map, unknown / missing parameter, missing / extra struct field, inconsistent split literals, reference to a non-existent output) must be rejected by the compiler with an error naming a source position inside the mutated call statement. distinct = (program shape, schedule) resp. (program, mutation); non-trivial = the mutated text differs and the base program compiles.",
 		assume: []string{"probe outputs conform to declared output types (bool outputs are never null; other leaves may be null)", "mutation operators are restricted to those that are ill-typed by the language documentation"},
 		cases: func(c *vf.Ctx) []*flowCase {
-			n := c.Pick(40, 1200)
+			n := c.Pick(72, 1200)
 			var cases []*flowCase
 			for i := 0; i < n; i++ {
 				cfg := pgen.DefaultConfig()
